@@ -63,23 +63,39 @@ def main():
     sh("git checkout -- . && git clean -fdq -e OUT", cwd=wt)
     ok = clean_pass and meta["patch_applies"] and suite_ok and meta["demo_fails_with_patch"]
     meta["confirmed"] = ok
-    # run the checks against /repo with the patch applied
-    rc, o = sh("git -C /repo status --porcelain")
-    if o.strip():
-        print("refusing: /repo is not clean")
-        return 2
-    rc, o = sh("git -C /repo apply %s" % patch)
-    try:
-        for c in checks:
-            # evidence, replays and work files of runs against a seeded change go to a scratch directory
-            rc, o = sh("VERIF_SCRATCH=/tmp/seeded-scratch ./check %s --tier %s" % (c, tier), cwd=VERIF)
-            viol = [l for l in o.splitlines() if l.startswith("VIOLATION")]
-            meta["ran"].append({"cmd": "./check %s --tier %s" % (c, tier), "exit": rc, "violation_lines": len(viol),
-                                "first": (o.splitlines()[-1][:600] if o.strip() else "")})
-            print("%s-%s: check %s -> exit %d (%d VIOLATION lines)" % (pid, label, c, rc, len(viol)))
-    finally:
-        sh("git -C /repo checkout -- .")
-        shutil.rmtree("/tmp/seeded-scratch", ignore_errors=True)
+    scratch_mode = "--scratch" in sys.argv
+    if scratch_mode:
+        # run the checks against the scratch worktree itself (VERIF_REPO), never touching /repo: safe alongside other runs
+        sh("git apply %s" % patch, cwd=wt)
+        env = "VERIF_REPO=%s VERIF_SCRATCH=%s VERIF_TARGET=%s " % (wt, wt + "-out", wt + "-target")
+        try:
+            for c in checks:
+                rc, o = sh(env + "./check %s --tier %s" % (c, tier), cwd=VERIF)
+                viol = [l for l in o.splitlines() if l.startswith("VIOLATION")]
+                meta["ran"].append({"cmd": "./check %s --tier %s" % (c, tier), "exit": rc, "violation_lines": len(viol),
+                                    "first": (o.splitlines()[-1][:600] if o.strip() else "")})
+                print("%s-%s: check %s -> exit %d (%d VIOLATION lines)" % (pid, label, c, rc, len(viol)))
+        finally:
+            sh("git checkout -- . && git clean -fdq -e OUT", cwd=wt)
+            shutil.rmtree(wt + "-out", ignore_errors=True)
+    else:
+        # run the checks against /repo with the patch applied
+        rc, o = sh("git -C /repo status --porcelain")
+        if o.strip():
+            print("refusing: /repo is not clean")
+            return 2
+        rc, o = sh("git -C /repo apply %s" % patch)
+        try:
+            for c in checks:
+                # evidence, replays and work files of runs against a seeded change go to a scratch directory
+                rc, o = sh("VERIF_SCRATCH=/tmp/seeded-scratch ./check %s --tier %s" % (c, tier), cwd=VERIF)
+                viol = [l for l in o.splitlines() if l.startswith("VIOLATION")]
+                meta["ran"].append({"cmd": "./check %s --tier %s" % (c, tier), "exit": rc, "violation_lines": len(viol),
+                                    "first": (o.splitlines()[-1][:600] if o.strip() else "")})
+                print("%s-%s: check %s -> exit %d (%d VIOLATION lines)" % (pid, label, c, rc, len(viol)))
+        finally:
+            sh("git -C /repo checkout -- .")
+            shutil.rmtree("/tmp/seeded-scratch", ignore_errors=True)
     meta["detected_by"] = [r["cmd"] for r in meta["ran"] if r["exit"] == 1]
     dest = os.path.join(VERIF, "seeded", "%s-%s" % (pid, label))
     os.makedirs(dest, exist_ok=True)
